@@ -29,14 +29,20 @@ def dvariants(dt, tier):
     out = {}
     ks = [1, 2, 3, 5] if tier == "quick" else [1, 2, 3, 4, 5, 6]
     for k in ks:
-        for lab, D in ((f"{k}*dt", k * dt), (f"{k}/(1/dt)", k / (1 / dt)), (f"lit{k}", float(repr(round(k * dt, 10))))):
+        for lab, D in ((f"{k}*dt", k * dt), (f"{k}/(1/dt)", k / (1 / dt)), (f"lit{k}", float(repr(round(k * dt, 12))))):
             out.setdefault(D, lab)
     if abs(dt - 1 / 12) < 1e-12:
         out.setdefault(5 / 12, "5/12")
         out.setdefault(7 / 12, "7/12")
     for f in (0.4, 1.5, 2.5) + ((20.0, 0.999, 3.3) if tier == "thorough" else ()):
         out.setdefault(f * dt, f"{f}dt")
-    return [(lab, D) for D, lab in out.items()]
+    # "k steps up to rounding error" is not quantified by the property: ratios whose distance to an integer is neither clearly rounding error
+    # (< 2e-10) nor clearly a fraction of a step (> 1e-6) get no verdict and are not generated
+    def decided(D):
+        x = D / dt
+        return not (2e-10 < abs(x - round(x)) / max(1.0, abs(x)) < 1e-6)
+
+    return [(lab, D) for D, lab in out.items() if decided(D)]
 
 
 def histories(tier):
